@@ -47,3 +47,9 @@ package canary
 //
 //@ func twoChecks(a []int, i int) (r int)
 //@   ensures true
+//
+//@ func twoChar(q string, i int) (t *tok)
+//@   ensures exact: t != nil ==> val(t.Data) == sub(val(q), t.Pos, t.Pos + len(t.Data))
+//
+//@ func oneChar(q string, i int) (t *tok)
+//@   ensures exact: t != nil ==> val(t.Data) == sub(val(q), t.Pos, t.Pos + len(t.Data))
